@@ -196,6 +196,10 @@ def check_seq(seq, stats):
             hits.append(hit("C04", seq, no, raw, obs[obs.index("REGISTRY-ERROR"):], "registry"))
             if panic_seen or "panic" in obs:
                 hits.append(hit("C10", seq, no, raw, "after / during a panic a component value was dropped twice, dropped without having been created, or found corrupted: " + obs[obs.index("REGISTRY-ERROR"):][:200], "registry-after-panic"))
+        if " AFTER-SKIPPED" in obs:
+            hits.append(hit("C06", seq, no, raw, "the query ended without panicking, yet the statement that follows the query macro in the same function never ran: ending a query (EcsStep::Break included) must return control to the code after the macro, not leave the enclosing function", "break-leaves-caller"))
+            if kind in ("iterd", "iterds"):
+                hits.append(hit("C07", seq, no, raw, "ecs_iter_destroy! ended without panicking, yet the statement that follows the macro in the same function never ran", "break-leaves-caller"))
         if "ALLOC-ERROR" in obs:
             # harness/rt/src/alloc_check.rs: a realloc / dealloc of gecs used a layout that is not the
             # block's own (undefined behaviour by the GlobalAlloc contract): the capacity the storage
@@ -307,6 +311,7 @@ def check_seq(seq, stats):
                     hits.append(hit("C19", seq, no, raw, f"with wrapping_version enabled, destroying the live entity {hv[1]} panicked ({pcls}); the feature documents wraparound in place of the generation-overflow panic, in every build profile", "wrapping-destroy-panics"))
                 if not wrapping and obs.startswith("some") and hv[1].endswith(".4294967295") and w.live[hv[1]][0] == hv[2] and not op[4:]:
                     hits.append(hit("C19", seq, no, raw, f"without wrapping_version, destroying {hv[1]} (generation 2^32-1) succeeded instead of panicking: the generation wrapped although the feature is off", "overflow-wrapped-without-feature"))
+                    hits.append(hit("C08", seq, no, raw, f"without wrapping_version, destroying {hv[1]} (generation 2^32-1) succeeded instead of panicking: the position's generation wrapped, so the handles issued for it from now on repeat, word for word, the handles it issued from generation 1 on (without the feature the removal must panic and change nothing, which is what keeps handles unique)", "overflow-wrapped-without-feature"))
             at_arch = next((int(t_[1:]) for t_ in op[4:] if t_.startswith("@")), None)
             if hv and hv[0] == "d" and at_arch is not None and op[2] == "y" and obs.startswith("some") and hv[1]:
                 did_ = int(hv[1].split(".")[0]) & 0xff
@@ -523,6 +528,8 @@ def check_seq(seq, stats):
                             path_ = {"or": "resolve", "od": "to_direct", "ov": "view", "ob": "borrow"}[nm_]
                             hits.append(hit("C03", seq, no, raw, f"archetype {oth_} (id {ids[oth_]}) accepted the dynamically typed key {hv[1]} of archetype id {kid_} in its archetype-level {path_}: {nm_}={v_[:60]}", "other-arch-accepted"))
                             hits.append(hit("C01", seq, no, raw, f"the handle {hv[1]} (archetype id {kid_}) was resolved by archetype {oth_} (id {ids[oth_]}) through {path_} to one of ITS entities ({nm_}={v_[:60]}): a lookup returns the handle's own entity or nothing", "wrong-entity"))
+                            if hv[0] == "d":
+                                hits.append(hit("C09", seq, no, raw, f"the direct handle {hv[1]} (archetype id {kid_}) was accepted by archetype {oth_} (id {ids[oth_]}) through its archetype-level {path_} and designates one of ITS entities ({nm_}={v_[:60]}): a direct handle never designates another entity than the one it was issued for", "foreign-direct-accepted"))
                             if nm_ == "od":
                                 hits.append(hit("C14", seq, no, raw, f"to_direct converted the handle {hv[1]} of archetype id {kid_} into the direct handle {v_} of archetype id {ids[oth_]}: conversions never change which archetype a handle belongs to", "to-direct-foreign"))
                             break
@@ -1070,7 +1077,7 @@ def check_nest(seq, no, op, obs, raw, w, archs, id2arch, hvars):
             elif d[0] == "fb":
                 node["q"] = d[1]
                 hv = hvars.get(d[2])
-                if hv and hv[0] == "e":
+                if hv and hv[0] in ("e", "d") and hv[1] and "." in hv[1]:
                     a = id2arch.get(int(hv[1].split(".")[0]) & 0xff)
                     if a is not None:
                         node["def"] = query_cells(seq, d[1], a, archs, True) or set()
@@ -1104,7 +1111,9 @@ def check_nest(seq, no, op, obs, raw, w, archs, id2arch, hvars):
         elif e == "X":
             if stack:
                 stack.pop()
-    m = re.search(r"end=panic:(Borrow\w*Error)", obs)
+    m = re.search(r"end=panic:(\w+)", obs)
+    if m and m.group(1) in ("HARNESS", "Injected"):
+        m = None
     if m and stack:
         top = stack[-1]
         refused_before_grant = (not top["acq"]) or top["kind"] == "ib"
